@@ -315,7 +315,7 @@ fn main() {
         }
         match c {
             Cmd::New(w) => {
-                if reg(|r| !r.used.insert(w)) {
+                if w >= 1_000_000 || reg(|r| !r.used.insert(w)) {
                     ret("bad");
                 } else {
                     let wk = s.waker(move |_s, deleted| {
